@@ -1,6 +1,75 @@
-(* C11: theorem statements are added when the corresponding Proofs file is merged. *)
-From Coq Require Import List ZArith QArith.
-From Eudoxia Require Import Model.Pool.
-Example C11_placeholder : p_active (new_pool 0 1%Z 1%Q) = nil.
-Proof. reflexivity. Qed.
-Print Assumptions C11_placeholder.
+(* C11 Pool-level OOM kills take highest scorers first and stop once usage fits.
+   Statements only; every proof is [exact <lemma of Proofs/OomFacts.v>]. The theorems are about
+   ResourcePool._run_out_of_memory_killer as modelled in Model/Pool.v ([oom_killer]), for every list
+   of containers, every capacity and every rounding function [cf_rnd] (the score is the one the code
+   computes, [score C c] = usage * (usage / allocation) with its two float operations). *)
+From Coq Require Import List ZArith QArith Sorting.Sorted Sorting.Permutation.
+Import ListNotations.
+From Eudoxia Require Import Model.Types Model.Lifecycle Model.Container Model.Pool Proofs.OomFacts.
+
+(* the candidate order: a stable, descending sort of exactly the unfinished containers that use memory *)
+Theorem C11_order_sorted : forall l,
+  StronglySorted (fun a b => (fst b <= fst a)%Q) (sort_desc l).
+Proof. exact sort_desc_sorted. Qed.
+Print Assumptions C11_order_sorted.
+
+Theorem C11_order_perm : forall l, Permutation (sort_desc l) l.
+Proof. exact sort_desc_perm. Qed.
+Print Assumptions C11_order_perm.
+
+Theorem C11_order_stable : forall l l1 l2 l3 x y,
+  (fst x == fst y)%Q -> l = l1 ++ x :: l2 ++ y :: l3 ->
+  exists m1 m2 m3, sort_desc l = m1 ++ x :: m2 ++ y :: m3.
+Proof. exact sort_desc_stable. Qed.
+Print Assumptions C11_order_stable.
+
+(* "Containers that finished in that tick or use no memory are never chosen" *)
+Theorem C11_candidates : forall C act id,
+  In id (victims_order C act) <-> exists c, In c act /\ scorable c = true /\ c_id c = id.
+Proof. exact victims_order_scorable. Qed.
+Print Assumptions C11_candidates.
+
+(* The whole killer: step 1 kills exactly the containers over their own limit; step 2 kills a prefix of
+   the candidate order; no candidate with a strictly higher score survives a victim; every kill happened
+   while the tracked usage still exceeded capacity; the loop stops as soon as it fits. *)
+Theorem C11_oom_killer_spec : forall C max w cons act w' cons' act',
+  NoDup (map c_id act) ->
+  oom_killer C max w cons act = Ok (w', cons', act') ->
+  exists w1 cons1 act1 k vs,
+    kill_over_limit C w cons act = Ok (w1, cons1, act1) /\
+    act1 = map (kill_when over_limit) act /\
+    k <= length (victims_order C act1) /\
+    map c_id vs = firstn k (victims_order C act1) /\
+    act' = map (kill_if (firstn k (victims_order C act1))) act1 /\
+    (forall id, In id (ids_killed act1 act') <-> In id (firstn k (victims_order C act1))) /\
+    Forall (fun v => In v act1 /\ scorable v = true) vs /\
+    (forall v s, In v vs -> In s act1 -> scorable s = true ->
+                 ~ In (c_id s) (ids_killed act1 act') ->
+                 (score C s <= score C v)%Q /\ ~ (score C v < score C s)%Q) /\
+    cons' = fold_left (cons_after C) vs cons1 /\
+    Forall (fun q => Qle_bool q max = false) (kill_trace C cons1 vs) /\
+    (k = length (victims_order C act1) \/ Qle_bool cons' max = true).
+Proof. exact oom_killer_spec. Qed.
+Print Assumptions C11_oom_killer_spec.
+
+(* V = [] when the usage already fits after step 1 *)
+Theorem C11_no_pool_kill_when_fits : forall C max w cons act w1 cons1 act1,
+  kill_over_limit C w cons act = Ok (w1, cons1, act1) ->
+  Qle_bool cons1 max = true ->
+  oom_killer C max w cons act = Ok (w1, cons1, act1).
+Proof. exact no_pool_kill_when_fits. Qed.
+Print Assumptions C11_no_pool_kill_when_fits.
+
+(* with exact arithmetic: "no kill happens that was not needed" — before the j-th kill the usage that
+   remained after the earlier victims still exceeded the pool *)
+Theorem C11_kills_needed_exact : forall C,
+  (forall x, (cf_rnd C x == x)%Q) ->
+  forall vs cons max,
+  Forall (fun q => Qle_bool q max = false) (kill_trace C cons vs) ->
+  forall j, j < length vs -> (max < cons - sumQ (map c_mem (firstn j vs)))%Q.
+Proof. exact kill_trace_exact. Qed.
+Print Assumptions C11_kills_needed_exact.
+
+(* non-vacuity: four candidates with a tie, pool over capacity: order [2;0;1], victims 2 then 0 *)
+Example C11_witness_order : victims_order Examples.exC Examples.exAct = [2; 0; 1].
+Proof. exact Examples.ex_order. Qed.
